@@ -153,8 +153,14 @@ func (p *Program) guardEval(fn *ssa.Function, spec guardSpec, cell map[string]gv
 				emit(cl, s.events)
 				return
 			}
-			if _, ok := in.(*ssa.Return); ok {
-				emit("return", s.events)
+			if ret, ok := in.(*ssa.Return); ok {
+				cls := "return"
+				if len(ret.Results) == 1 {
+					if v := val(s.env, ret.Results[0]); v.known && v.isB {
+						cls = map[bool]string{true: "return:true", false: "return:false"}[v.b]
+					}
+				}
+				emit(cls, s.events)
 				return
 			}
 			if _, ok := in.(*ssa.Panic); ok {
